@@ -832,7 +832,7 @@ def ia32_reg_32(obj, Mod, RM, REG, data):
 @ispec_ia32("*>[ {0f}{bd} /r ]", mnemonic="LZCNT",__obj=precond_rep)
 @ispec_ia32("*>[ {0f}{af} /r ]", mnemonic="IMUL")
 @ispec_ia32("*>[ {0f}{03} /r ]", mnemonic="LSL")
-@ispec_ia32("*>[ {0f}{b8} /r ]", mnemonic="POPCNT",__obj=precond_norep)
+@ispec_ia32("*>[ {0f}{b8} /r ]", mnemonic="POPCNT",__obj=precond_rep)
 def ia32_reg_32_inv(obj, Mod, RM, REG, data):
     op2, data = getModRM(obj, Mod, RM, data)
     op1 = getregR(obj, REG, op2.size)
